@@ -1,4 +1,5 @@
 import ElkVerif.Proofs.DateFmt
+import ElkVerif.Proofs.ZoneOff
 /-!
 # C22 — Calendar arithmetic is exact, never wraps, and formatting round-trips
 -/
@@ -240,5 +241,20 @@ example : timeSpanRt (-9223372036854775808) = true := by decide
 example : timeSpanRt 5400000000001 = true := by decide
 example : timeSpanRt 0 = true := by decide
 example : dateTimeSpanRt (newDateTimeSpan ⟨14, 3⟩ (-5400000000001)) = true := by decide
+
+
+/-! ## Zone offsets in strftime output (`%z`, `%:z`) -/
+
+/-- every whole-minute offset the implementation accepts (strictly between −24 h and +24 h) is printed by `%z` / `%:z`
+and parsed back to itself -/
+theorem zone_offset_roundtrip (colon : Bool) (o : Int) (h1 : -86400 < o) (h2 : o < 86400) (hm : o % 60 = 0) :
+    Elk.ZoneOff.parseOff colon (Elk.ZoneOff.fmtOff colon o) = some o :=
+  Elk.ZoneOff.offset_roundtrip colon o h1 h2 hm
+
+example : Elk.ZoneOff.parseOff true (Elk.ZoneOff.fmtOff true (-1800)) = some (-1800) := by decide   -- −00:30
+
+/-- the full statement (every accepted offset) is false: seconds are dropped (known finding C22-zone-offset-seconds) -/
+theorem zone_offset_seconds_witness :
+    Elk.ZoneOff.parseOff false (Elk.ZoneOff.fmtOff false (-1830)) = some (-1800) := by decide
 
 end Elk.C22
